@@ -25,7 +25,8 @@ class C07(c01.C01):
                          'models.judged.with_two_foreign_suppliers_of_one_market',
                          'retry_after_refusal.judged',
                          'models.judged.with_country_currency_member_overwritten_after_construction',
-                         'gold_set_up_directly_then_region_joins.judged')
+                         'gold_set_up_directly_then_region_joins.judged',
+                         'models.judged.with_currency_codes_that_are_fragments_of_the_word_numeraire')
     which = ('fx', 'ledger', 'zone')
 
     def n_cases(self, tier):
@@ -52,6 +53,16 @@ class C07(c01.C01):
             if M.force_two_foreign_suppliers(rng, sp3):
                 case['spec'] = sp3
                 case['two_foreign_suppliers'] = True
+        if idx % 8 == 4:
+            # short currency codes that happen to be fragments of the word NUMERAIRE (IR, ME, RE, NU, AIR, single letters)
+            for _ in range(40):
+                if self.cross_flows(case['spec']) > 0:
+                    break
+                case['spec'] = M.gen_spec(rng, n_zones=rng.choice([2, 3]), ext=True, maxtime=4)
+            short = rng.sample(['IR', 'ME', 'ER', 'RE', 'NU', 'AIR', 'A', 'E', 'N', 'UM'], len(case['spec']['zones']))
+            for z, cur in zip(case['spec']['zones'], short):
+                z['cur'] = cur
+            case['currency_codes_inside_the_word_numeraire'] = True
         if idx % 8 == 6:
             case.setdefault('build_opts', {})['overwrite_currency_member'] = True
             for _ in range(40):
@@ -214,6 +225,8 @@ class C07(c01.C01):
         if case.get('twin_without_ext') and cross and not spec.get('row') and not any(z['gov']['form'] in ('gold', 'gold_cb') for z in spec['zones']):
             return self.run_refusal(case)
         res = c01.solve_and_judge(case, self.which, in_situ=False)
+        if case.get('currency_codes_inside_the_word_numeraire') and res['verdict'] in ('held', 'violated'):
+            res.setdefault('counters', {})['models.judged.with_currency_codes_that_are_fragments_of_the_word_numeraire'] = 1
         if case.get('two_foreign_suppliers') and res['verdict'] in ('held', 'violated'):
             res.setdefault('counters', {})['models.judged.with_two_foreign_suppliers_of_one_market'] = 1
         if res['verdict'] in ('held', 'violated'):
